@@ -292,7 +292,7 @@ fn restrict(prog: &mut Prog) {
                 fix(a);
                 *e = (**a).clone();
             }
-            Expr::Untracked(_) | Expr::Arg | Expr::SelfSym | Expr::Spec(..) | Expr::SpecForeign(..) | Expr::PeekZ(..) => {
+            Expr::Untracked(_) | Expr::Arg | Expr::SelfSym | Expr::Spec(..) | Expr::SpecForeign(..) | Expr::PeekZ(..) | Expr::PeekNZ(..) => {
                 *e = Expr::Const(1)
             }
             _ => {}
